@@ -55,17 +55,20 @@ CTXS = ('return', 'assign', 'if', 'try', 'with', 'listcomp', 'dictcomp', 'genexp
 NESTED_CTXS = ('genexp', 'nested', 'lambda', 'nested2', 'nested_decoyarg', 'lambda_decoykw', 'lambda_subscript', 'nested_lambda', 'lambda_lambda',
                'nested_early', 'lambda_early', 'nested_listcomp', 'lambda_dictcomp', 'nested_listcomp_early', 'lambda_dictcomp_early',
                'nested_genexp_early', 'lambda_setcomp_early', 'genexp_lazy', 'genexp_lazy_early', 'async_nested', 'async_nested_early')
+# calls that run later than where they are written (statements after them count): the nested contexts and the generator
+# expressions that rebind a star (kept out of NESTED_CTXS: the equivalent rewrites of C06 rotate within that tuple)
+DEFERRED_CTXS = NESTED_CTXS + ('genexp_rebinds_args', 'genexp_rebinds_kwargs')
 # in the *_early contexts the nested function is defined at the top of the body (before the taint statements) and called where
 # the forwarding statement stands: what it forwards is what the names denote when it runs
 HOIST = '\x00'
 ROUTES = ('global', 'closure', 'attr', 'self_method', 'self_attr', 'param', 'partial_inner',
           'shadow_posonly', 'shadow_lambda', 'shadow_nested', 'shadow_comp', 'local_rebind', 'missing', 'noncallable',
           'classmethod_cls', 'closure_like_global', 'param_shadow_lambda', 'param_shadow_kwonly', 'self_shadow_nested', 'param_default',
-          'self_attr_store', 'via_helper', 'via_helper_kw')
+          'self_attr_store', 'self_attr_store_arg', 'via_helper', 'via_helper_kw')
 # via_helper*: every call goes through one generic helper that receives the callee as an argument (positionally: APPLY(L0, ...);
 # by keyword: APPLYK(..., fn=L0)); several calls of one function then reach the same helper with different callees
 UNRESOLVABLE = ('shadow_posonly', 'shadow_lambda', 'shadow_nested', 'shadow_comp', 'local_rebind', 'missing', 'noncallable',
-                'param_shadow_lambda', 'param_shadow_kwonly', 'self_shadow_nested', 'param_default', 'self_attr_store')
+                'param_shadow_lambda', 'param_shadow_kwonly', 'self_shadow_nested', 'param_default', 'self_attr_store', 'self_attr_store_arg')
 STAR_MODES = ('own', 'none', 'foreign', 'own+f')
 TAINTS = {
     # name: (target, statement template, what reaches the callee afterwards)
@@ -193,7 +196,7 @@ def normalise(prog):
     only where admissible; the `param` route needs leading positional parameters."""
     prog = dict(prog)
     outer = [Par(*p) for p in prog['outer']]
-    if any(c['ctx'] in NESTED_CTXS for c in prog['calls']):
+    if any(c['ctx'] in DEFERRED_CTXS for c in prog['calls']):
         prog['taints'] = [dict(t, where='before') for t in prog['taints']]
     has_star = {'args': any(p.kind == VP for p in outer), 'kwargs': any(p.kind == VK for p in outer)}
     pok = [p.name for p in outer if p.kind == POK]
@@ -201,7 +204,7 @@ def normalise(prog):
         prog['deco'] = 'none'
     if prog['deco'] == 'autokwoargs' and not any(p.kind == POK and p.default is not None for p in outer):
         prog['deco'] = 'none'
-    if prog['route'] in ('self_method', 'self_attr', 'self_attr_store', 'param', 'classmethod_cls', 'param_shadow_lambda', 'param_shadow_kwonly', 'self_shadow_nested', 'param_default') and prog['deco'] in ('kwoargs', 'autokwoargs', 'wraps', 'wrapping'):
+    if prog['route'] in ('self_method', 'self_attr', 'self_attr_store', 'self_attr_store_arg', 'param', 'classmethod_cls', 'param_shadow_lambda', 'param_shadow_kwonly', 'self_shadow_nested', 'param_default') and prog['deco'] in ('kwoargs', 'autokwoargs', 'wraps', 'wrapping'):
         prog['deco'] = 'none'
     if prog['route'] in ('self_method', 'self_shadow_nested'):
         # leaves become methods: only plain functions make sense there
@@ -237,7 +240,7 @@ def normalise(prog):
         # the rebinding outlives the loop -- for the reader of the source on every path, at run time only where the loop ran:
         # such a program has this one forwarding call
         prog['calls'] = loops[:1]
-    nested_any = any(c['ctx'] in NESTED_CTXS for c in prog['calls'])
+    nested_any = any(c['ctx'] in DEFERRED_CTXS for c in prog['calls'])
     for c in prog['calls']:
         c.setdefault('inarg', None)
         c.setdefault('unres', False)
@@ -396,7 +399,7 @@ def _call_expr(prog, call, callee_expr, outer, j):
         parts += ['**' + vk, '**' + vk]
     if prog['route'] == 'partial_inner':
         return 'functools.partial(%s)' % ', '.join([callee_expr] + parts)
-    if prog['route'] == 'via_helper' and not call.get('unres'):
+    if prog['route'] in ('via_helper', 'self_attr_store_arg') and not call.get('unres'):
         return 'APPLY(%s)' % ', '.join([callee_expr] + parts)
     if prog['route'] == 'via_helper_kw' and not call.get('unres'):
         at = next((i for i, x in enumerate(parts) if x.startswith('**') or ('=' in x and not x.startswith('*'))), len(parts))
@@ -531,7 +534,7 @@ def render(prog):
         n = 'L%d' % i
         callee_expr[i] = {
             'global': n, 'closure': '_c%d' % i, 'attr': 'NS.sub.%s' % n, 'self_method': 'self.%s' % n,
-            'self_attr': 'self.fn%d' % i, 'self_attr_store': 'self.fn%d' % i, 'param': 'fn%d' % i, 'partial_inner': n,
+            'self_attr': 'self.fn%d' % i, 'self_attr_store': 'self.fn%d' % i, 'self_attr_store_arg': 'self.fn%d' % i, 'param': 'fn%d' % i, 'partial_inner': n,
             'shadow_posonly': n, 'shadow_lambda': n, 'shadow_nested': n, 'shadow_comp': n, 'local_rebind': n,
             'missing': 'MISSING%d' % i, 'noncallable': 'NONCALLABLE', 'classmethod_cls': 'cls.%s' % n,
             'closure_like_global': 'ALT' if i == 0 else '_c%d' % i,      # the closure variable is spelled like a module global
@@ -540,7 +543,7 @@ def render(prog):
         }[route]
     has_po = any(p.kind == PO for p in outer)
     first_kind = PO if has_po else POK
-    if route in ('self_method', 'self_attr', 'self_attr_store', 'self_shadow_nested'):
+    if route in ('self_method', 'self_attr', 'self_attr_store', 'self_attr_store_arg', 'self_shadow_nested'):
         extra_first = [Par('self', first_kind)]
     elif route == 'classmethod_cls':
         extra_first = [Par('cls', first_kind)]
@@ -565,7 +568,7 @@ def render(prog):
             body.append((TAINTS.get(t['name']) or HARMLESS[t['name']])[1].format(**fmt) + '\n')
     if route == 'local_rebind':
         body.append(''.join('L%d = ALT\n' % i for i in range(len(leaves))))
-    if route == 'self_attr_store':
+    if route in ('self_attr_store', 'self_attr_store_arg'):
         # the function itself replaces the attribute it then calls: what it holds while the signature is retrieved says nothing
         body.append(''.join('self.fn%d = ALT\n' % i for i in range(len(leaves))))
     if prog.get('mention'):
@@ -639,7 +642,7 @@ def render(prog):
         src += 'class K(object):\n' + _indent(''.join(leaf_srcs)) + _indent(wdef) + 'TARGET = K().w\nWFUNC = K.__dict__["w"]\n'
         if route == 'classmethod_cls':
             src += 'WFUNC = WFUNC.__func__\n'
-    elif route in ('self_attr', 'self_attr_store'):
+    elif route in ('self_attr', 'self_attr_store', 'self_attr_store_arg'):
         src += ''.join(leaf_srcs)
         init = 'def __init__(self):\n' + ''.join('    self.fn%d = L%d\n' % (i, i) for i in range(len(leaves)))
         src += 'class K(object):\n' + _indent(init) + _indent(wdef) + 'TARGET = K().w\nWFUNC = K.__dict__["w"]\n'
